@@ -8,6 +8,7 @@ package main
 // the exit status and that file. The harness decides nothing about the order of the steps.
 
 import (
+	"time"
 	"bufio"
 	"io"
 	"os"
@@ -66,7 +67,20 @@ type cmdResult struct {
 }
 
 // runCommand spawns the child for one case.
+// runCommand runs the case in a child process; a child that could not be started, was killed, or could not set
+// its case up (exit >= 90) is tried again twice before the harness error is reported.
 func runCommand(e envCase) cmdResult {
+	var res cmdResult
+	for attempt := 0; attempt < 3; attempt++ {
+		if res = runCommandOnce(e); res.exit < 90 {
+			break
+		}
+		time.Sleep(time.Duration(attempt+1) * 500 * time.Millisecond)
+	}
+	return res
+}
+
+func runCommandOnce(e envCase) cmdResult {
 	dir, err := os.MkdirTemp("", "c20-cmd-")
 	if err != nil {
 		return cmdResult{exit: 94}
@@ -80,7 +94,9 @@ func runCommand(e envCase) cmdResult {
 	res := cmdResult{}
 	if err := c.Run(); err != nil {
 		if ee, ok := err.(*exec.ExitError); ok {
-			res.exit = ee.ExitCode()
+			if res.exit = ee.ExitCode(); res.exit < 0 { // killed by a signal
+				res.exit = 96
+			}
 		} else {
 			res.exit = 95
 		}
